@@ -31,7 +31,7 @@ REG = {
                  "triedb disk-commit/cap/reference/dereference/reopen/prove/corrupt-proof/DeriveSha ops over 25 prefix-sharing keys and 13 values (empty=delete, embedded, 32/33/300 bytes, ~40 kB), "
                  "with faults: restart (fresh trie.Database over the same disk), crash at a drawn prefix of the write log of a Database.Commit, proof corruption (bit flip re-keyed under its new hash, foreign key, dropped node). "
                  "Oracles vs a map model with one snapshot per committed root: root-canonical (3 construction orders), get-model, reopen, proof-sound, proof-corrupt, stacktrie-eq, commit-crash. "
-                 "non-trivial = >=8 executed ops of >=4 kinds with >=3 keys held at once; distinct = distinct trace digest." + " Added after seeding wave 5: every canonical-root comparison also compares with an independent Merkle-Patricia root computed from the specification (hex-prefix, RLP, keccak, embed-below-32-bytes; no code shared with package trie); op 'copymutate' mutates a copy of the live trie (SecureTrie.Copy / struct copy / Database.CopyTrie) and the original must still serve the model and its root; values sized so that branches of inline leaves come out at 31/32/33 bytes."),
+                 "non-trivial = >=8 executed ops of >=4 kinds with >=3 keys held at once; distinct = distinct trace digest." + " Added after seeding wave 5: every canonical-root comparison also compares with an independent Merkle-Patricia root computed from the specification (hex-prefix, RLP, keccak, embed-below-32-bytes; no code shared with package trie); op 'copymutate' mutates a copy of the live trie (SecureTrie.Copy / struct copy / Database.CopyTrie) and the original must still serve the model and its root; values sized so that branches of inline leaves come out at 31/32/33 bytes." + ' The model counts references on roots (Reference twice = two retained blocks with one state root); a root that keeps a reference after a Dereference must still be served by the database, checked at once.'),
         "expect_probes": ["restart", "commit_crash", "proof_bitflip-rekeyed", "absence_proof", "prefix_key_pair", "derive_ge128", "commit_multi_batch"],
         "components": {"real": ["trie.Trie", "trie.SecureTrie", "trie.StackTrie", "trie.Database", "trie proofs", "types.DeriveSha", "state.Database", "ethdb/memorydb as disk"],
                        "stub": ["disk write log (harness wrapper recording Put/Delete/batch groups, used to materialise crash-prefix images)"]},
@@ -256,7 +256,7 @@ REG.update({
         "rule": S5_RULE + ("Monitor on every transaction the simulated clients sign (transfers, conversions with data, contract creations and calls with access lists; Qi transactions with 1..3 inputs): "
                  "for every second Quai transaction each signed field in turn (nonce, gas, gas price, value, recipient, recipient present/absent, data appended/flipped, access-list address/key added, chain id) is changed with the signature kept, and each signature value is pushed to an edge "
                  "(r=0, s=0, r=N, s=N, r=N+1, high-S with flipped v, v=2, v flipped, r+1): types.Sender must fail or return another address, and the node's live tx pool must not book the rewrite to the original sender; a sender cached under the chain's signer is not served to a signer of another chain id and survives that query. "
-                 "For every valid Qi transaction, a changed output denomination/address, a dropped output, changed data or chain id with the Schnorr (MuSig2) signature kept must fail the node's own ValidateQiTxInputs + ValidateQiTxOutputsAndSignature on the live UTXO set." + " Added after seeding wave 4: recovery ids v+256, v+512, v+2^32, v+2^64, v+27 (equal to the genuine one modulo a byte / a word); the same content signed by the same key for chain ids 0, 1, 9, 1337 and the neighbour id must not be attributed to the key holder by this chain's signer nor booked by the pool (cross-chain-replay); every third head the validator's own Qi path (core.ProcessQiTx) is driven with the adversarial cases of C01, including a second input that is not owned by the presented key."),
+                 "For every valid Qi transaction, a changed output denomination/address, a dropped output, changed data or chain id with the Schnorr (MuSig2) signature kept must fail the node's own ValidateQiTxInputs + ValidateQiTxOutputsAndSignature on the live UTXO set." + " Added after seeding wave 4: recovery ids v+256, v+512, v+2^32, v+2^64, v+27 (equal to the genuine one modulo a byte / a word); the same content signed by the same key for chain ids 0, 1, 9, 1337 and the neighbour id must not be attributed to the key holder by this chain's signer nor booked by the pool (cross-chain-replay); every third head the validator's own Qi path (core.ProcessQiTx) is driven with the adversarial cases of C01, including a second input that is not owned by the presented key." + ' For every valid Qi transaction the signing digest is computed with data of 0, 1, 20, 22 and 23 bytes (two values each for 20 and 22): all digests must differ.'),
         "expect_probes": ["rewrite.nonce", "rewrite.chain-id", "rewrite.high-s", "rewrite.access-list-key", "rewrite.qi-output-denomination", "rewrite.qi-data", "reorg"],
         "components": S5_COMPONENTS,
         "assumptions": ["the per-field quantifier is enumerated over the field list of the current transaction types, not proved; elliptic-curve recovery maths is trusted",
@@ -272,8 +272,8 @@ REG.update({
                  "with every truncation of the donor scriptSig, and with byte-level corruptions of the coinbase transaction and of the frame, through AuxPow.ProtoDecode and the parser sequence the share validator and header verification run (ExtractScriptSig/SignatureTime/SealHash/MerkleSizeAndNonce/Height, CalculateMerkleRoot, ValidatePrevOutPoint..., ConvertToTemplate().VerifySignature, PowHash). "
                  "Oracle: no panic escapes any of these entry points (the harness installs recover only to turn the panic into the violation) and the node can still return to its honest head. "
                  "EVM half (evmsim TestC15): the generated programs and gas cuts of the S3 harness with memory-heavy actions and large ETX data windows; a tracer records memory size and gas at every step; "
-                 "oracle: the price of the memory growth a step causes (3 gas/word + words^2/512) never exceeds what that step was charged in total." + ' Peer-protocol request / response frames built around each block are corrupted twice each and given to DecodeQuaiMessage, DecodeQuaiRequest / DecodeQuaiResponse and the body sanity checks.'),
-        "expect_probes": ["corrupt.bit-flip", "corrupt.truncate", "corrupt.huge-length-prefix", "corrupt.tx-bit-flip", "corrupt.donor-script-truncated", "donor_frames_parsed", "memory_growth_checked", "large_memory_expansion"],
+                 "oracle: the price of the memory growth a step causes (3 gas/word + words^2/512) never exceeds what that step was charged in total." + ' Peer-protocol request / response frames built around each block are corrupted twice each and given to DecodeQuaiMessage, DecodeQuaiRequest / DecodeQuaiResponse and the body sanity checks.' + " Fault kind 'field dropped' (every third block): the block- and header-view frames are decoded as protobuf and re-encoded once per populated message- or bytes-typed field (to depth 4) with exactly that field left out."),
+        "expect_probes": ["corrupt.bit-flip", "corrupt.truncate", "corrupt.huge-length-prefix", "corrupt.tx-bit-flip", "corrupt.donor-script-truncated", "corrupt.field-dropped", "donor_frames_parsed", "memory_growth_checked", "large_memory_expansion"],
         "components": {"real": S5_COMPONENTS["real"] + ["p2p/pb gossip codec (ConvertAndMarshal / UnmarshalAndConvert)", "Core.SanityCheckWorkObject*ViewBody", "TxPool.AddRemote", "vm interpreter with a vm.Tracer"],
                        "stub": S5_COMPONENTS["stub"] + ["the libp2p transport and the gossipsub validator wrapper (signature/PoW filter of shares) are not run", "RLP and hex/JSON RPC argument decoders are not fed; request / response frames of the peer protocol are fed to DecodeQuaiMessage / DecodeQuaiRequest / DecodeQuaiResponse and the sanity checks, not to the stream handlers", "the AuxPoW parser sequence is replayed from the gossip validator's source, the validator wrapper itself is not run"]},
         "assumptions": ["frames are corruptions of real traffic, not arbitrary byte strings", "the 'memory proportional to the input' clause of decoders is not measured (allocation deltas are not attributable in a multi-goroutine process)",
